@@ -28,7 +28,7 @@ THEOREMS = [
     "C11_read_sees_current_content", "C11_read_history_independent",
 ]
 RULE = ("(a) generated METADATA texts (field order and case, 0-8 Requires-Dist with extras/markers/parenthesised "
-        "specifiers/URLs, folded and duplicated headers, bodies with header-like lines, non-ASCII, CRLF, BOM, exotic white "
+        "specifiers/URLs, headers folded with tab / space / mixed indentation (also under CRLF), duplicated headers, bodies with header-like lines, non-ASCII, CRLF, BOM, exotic white "
         "space, invalid versions/requirements; ~15% malformed) run through the real _parse_flat_metadata and the extracted "
         "parse_flat; (b) the same texts packed into generated wheels (own dist-info first/last/missing, vendored other and "
         "same-project dist-info, .data nesting, METADATA.bak, duplicate members, no dist-info, not-a-zip, truncated, CRC-broken) "
@@ -125,6 +125,23 @@ def gen_body(rng, headerlike: bool) -> List[str]:
     return lines
 
 
+FOLD_INDENTS = ["\t", "\t", " ", "  ", "        ", "\t ", " \t", "\t\t"]
+
+
+def fold_value(rng, v: str) -> str:
+    """Fold a one-line header value over 2-3 physical lines: the line break goes in front of existing
+    white space (which then starts the continuation line) or in front of ';' / '(' / '@' with fresh indentation."""
+    for _ in range(rng.choice([1, 1, 2])):
+        spots = [i for i, c in enumerate(v) if (c == " " or c in ";(@") and i > 0 and v[i - 1] != "\n"
+                 and "\n" not in v[max(0, i - 2):i + 1]]
+        if not spots:
+            break
+        i = rng.choice(spots)
+        ind = rng.choice(FOLD_INDENTS)
+        v = v[:i] + "\n" + ind + (v[i + 1:] if v[i] == " " else v[i:])
+    return v
+
+
 def gen_metadata(rng, malformed: bool) -> Tuple[str, Dict[str, Any]]:
     """Returns (text, tags)."""
     tags: Dict[str, Any] = {}
@@ -152,6 +169,12 @@ def gen_metadata(rng, malformed: bool) -> Tuple[str, Dict[str, Any]]:
     else:
         fields += core + rest
     fields = [(case_name(rng, k) if rng.random() < 0.3 else k, v) for k, v in fields]
+    if rng.random() < 0.3:
+        # RFC 822 folding (valid input): continuation lines indented with tabs, spaces or a mix
+        pf = rng.choice([0.3, 0.6, 1.0])
+        fields = [(k, fold_value(rng, v)) if "\n" not in v and rng.random() < (pf if k.lower() == "requires-dist" else 0.15) else (k, v)
+                  for k, v in fields]
+        tags["folded"] = sum(1 for k, v in fields if k.lower() == "requires-dist" and "\n" in v)
     headerlike = rng.random() < 0.3
     body = gen_body(rng, headerlike)
     sep = [""]
@@ -229,6 +252,7 @@ def gen_metadata(rng, malformed: bool) -> Tuple[str, Dict[str, Any]]:
             out.append(k + ":" + v[len("\0NOSPACE"):])
         else:
             out.append(k + rng.choice([": ", ": ", ": ", ":", ":  ", ":\t"] if mal == "tab-sep" else [": "]) + v)
+    out = [piece for ln in out for piece in ln.split("\n")]
     lines = out + sep + body
     if mal == "only-body":
         lines = [""] + out + body
@@ -578,6 +602,8 @@ def correspondence(ctx: Ctx) -> None:
         ctx.count("eol:" + tags["eol"])
         if "malformed" in tags:
             ctx.count("malformed:" + tags["malformed"])
+        if tags.get("folded"):
+            ctx.count("folded-requires-dist:" + ("tab" if re.search(r"\n\t", t) else "space"))
         impl = impl_flat(DI, t)
         try:
             f = read_flat(Rd(ap.split()))
@@ -965,6 +991,27 @@ def oracle_wheel(MD, DI, orc: Oracles, w: Dict[str, Any], path: str) -> Optional
     return None
 
 
+def wheel_for_text(MD, DI, orc: Oracles, tmp, text: str, why: str, tag: str) -> Dict[str, Any]:
+    """A failing METADATA text, packed into a spec-conformant wheel and re-judged through extract_metadata:
+    the replay is then the concrete wheel (falls back to the text when the wheel-level oracle is silent)."""
+    base = "demo_pkg-1.0-py3-none-any.whl"
+    members = [("demo_pkg/__init__.py", b""), ("demo_pkg-1.0.dist-info/METADATA", text.encode("utf-8")),
+               ("demo_pkg-1.0.dist-info/WHEEL", b"Wheel-Version: 1.0\n"), ("demo_pkg-1.0.dist-info/RECORD", b"")]
+    try:
+        d = tmp / ("tw-" + tag)
+        d.mkdir(exist_ok=True)
+        path = str(d / base)
+        w = {"basename": base, "layout": "replay", "compress": False, "own": "", "members": members}
+        write_wheel(path, w)
+        wwhy = oracle_wheel(MD, DI, orc, w, path)
+        if wwhy and text.encode("utf-8").decode("utf-8", "ignore") == text:
+            return {"kind": "wheel", "input": {"basename": base, "members": [[n, c.decode("utf-8")] for n, c in members]},
+                    "why": "extract_metadata(%s): %s" % (base, wwhy)}
+    except Exception:
+        pass
+    return {"kind": "text", "input": text, "why": why}
+
+
 def search(ctx: Ctx) -> Optional[Dict[str, Any]]:
     DI, MD, U, pkg_resources = _imports()
     orc = Oracles(U, pkg_resources)
@@ -977,8 +1024,7 @@ def search(ctx: Ctx) -> Optional[Dict[str, Any]]:
             if isinstance(c, dict) and "text" in c:
                 why = oracle_text(DI, orc, c["text"])
                 if why:
-                    return {"kind": "text", "input": c["text"], "why": why}
-                # pack it into a conformant wheel as well
+                    return wheel_for_text(MD, DI, orc, tmp, c["text"], why, "m%d" % k)
             elif isinstance(c, dict) and "archive" in c and c["archive"][0] == "Z":
                 d = tmp / ("s%d" % k)
                 d.mkdir(exist_ok=True)
@@ -1012,7 +1058,7 @@ def search(ctx: Ctx) -> Optional[Dict[str, Any]]:
         t, _ = gen_metadata(rng, rng.random() < 0.15)
         why = oracle_text(DI, orc, t)
         if why:
-            return {"kind": "text", "input": t, "why": why}
+            return wheel_for_text(MD, DI, orc, tmp, t, why, "t%d" % i)
     for i in range(ctx.n(600, 6000)):
         w = gen_wheel(rng, rng.random() < 0.3)
         d = tmp / ("f%d" % i)
